@@ -65,6 +65,15 @@ QUICK_C09 = {"valid": 8, "sentences": 150, "mutations": 500}
 THOROUGH_C09 = {"valid": 60, "sentences": 3000, "mutations": 12000}
 
 
+def _raw(r: Dict[str, Any]) -> List[str]:
+    """token types of the text as written; when the lexer failed the comparison is on the lexed prefix"""
+    return r["types"] if r.get("lexerr") else r.get("raw", r["types"])
+
+
+def _ends(r: Dict[str, Any]) -> bool:
+    return True if r.get("lexerr") else bool(r.get("ends_nl", True))
+
+
 def _coq_obs(syn: Dict[str, Any], tid: Dict[str, int], ntypes: int) -> Optional[str]:
     if syn["out"] == "accept":
         return f"(0, 0, 0, {clist(str(x) for x in syn['reds'])})"
@@ -125,7 +134,7 @@ def lr_stage(ck: Check, prop_file: str, sizes_quick: Dict[str, int], sizes_thoro
         add_tree(f"misc#{j}", f)
     for d in (1, 5, 30):
         add_tree(f"nest{d}", lr_gen.nest_file(d))
-    for name, text, exp in lr_gen.catalogue([k.get("key") for k in ck.known]):
+    for name, text, exp in lr_gen.catalogue():
         cases.append({"kind": "catalogue", "name": name, "expect": exp,
                       "job": {"mode": "text", "text": text, "real": False}})
     for i in range(sz["sentences"]):
@@ -166,11 +175,12 @@ def lr_stage(ck: Check, prop_file: str, sizes_quick: Dict[str, int], sizes_thoro
     for si in range(0, len(rows), shard):
         part = rows[si:si + shard]
         body = ";\n".join(
-            f"  ({clist(str(tid[t]) for t in r['types'])}, {_coq_obs(r['syn'], tid, len(r['types']))})" for c, r in part)
+            f"  ({clist(str(tid[t]) for t in _raw(r))}, {'true' if _ends(r) else 'false'}, "
+            f"{clist(str(tid[t]) for t in r['types'])}, {_coq_obs(r['syn'], tid, len(r['types']))})" for c, r in part)
         path = os.path.join(ck.dir, f"lr_{label}_{si // shard}.v")
         with open(path, "w") as f:
-            f.write(HEADER + "Definition cases : list (list N * obsN) := [\n" + body + "\n].\n"
-                    "Eval vm_compute in map case_code_N cases.\n")
+            f.write(HEADER + "Definition cases : list (list N * bool * list N * obsN) := [\n" + body + "\n].\n"
+                    "Eval vm_compute in map text_case_code_N cases.\n")
         files.append((path, part))
     trows = [(t, r) for t, r in zip(trees, res_t) if "worker_error" not in r]
     for t, r in zip(trees, res_t):
@@ -236,6 +246,10 @@ def lr_stage(ck: Check, prop_file: str, sizes_quick: Dict[str, int], sizes_thoro
                                  json.dumps(replay(c, r))[:1500]))
             if code & 4:
                 ck.broken(Broken(f"{label}: the model crashed / ran out of fuel on {c['name']}"))
+            if code & 8:
+                ck.broken(Broken(f"{label}: the tokens ply fetched inside Parser.parse_string differ from the model of its "
+                                 f"text normalisation (LRConcrete.text_tokens) on {c['name']}",
+                                 json.dumps(replay(c, r, {"raw": r.get("raw"), "ends_nl": r.get("ends_nl")}))[:1500]))
             documented = earley.accepts(r["types"])
             accepted = syn["out"] == "accept"
             if accepted != documented:
@@ -244,8 +258,7 @@ def lr_stage(ck: Check, prop_file: str, sizes_quick: Dict[str, int], sizes_thoro
                              replay(c, r, {"earley": documented}), found_input=True)
             if c["expect"] is not None and r.get("lexerr") is None and (c["expect"] == "accept") != accepted:
                 ck.violation(f"{label}: {c['name']}: the documentation promises `{c['expect']}` at the syntax level, "
-                             f"the parser says {syn['out']}", replay(c, r), found_input=True,
-                             key="comment-at-eof" if "[comment-at-eof]" in c["name"] else None)
+                             f"the parser says {syn['out']}", replay(c, r), found_input=True)
             if c["expect"] is not None and r.get("lexerr") is not None:
                 ck.violation(f"{label}: {c['name']}: lexer error {r['lexerr']} on a catalogue / valid text",
                              replay(c, r), found_input=True)
